@@ -55,6 +55,7 @@ type c03Universe struct {
 type c03Line struct {
 	Universe *c03Universe `json:"universe,omitempty"`
 	T        []int        `json:"t"`
+	D        []int        `json:"d"` // routes added and deleted again before the lookup
 	H        int          `json:"h"`
 	TLS      int          `json:"tls"`
 	W        [][]int      `json:"w"`
@@ -80,12 +81,17 @@ type c03Explicit struct {
 	Want    int        `json:"want"`
 	Cache   int        `json:"cache"`
 	Order   int        `json:"order"`
+	Dead    []c03Route `json:"dead,omitempty"`    // added, then deleted by `route del`
+	Builder string     `json:"builder,omitempty"` // "" / "text": NewTable, "custom": NewTableCustom
 }
 
 // ---- the real code under test
 
-func c03TableText(routes []c03Route, order int) string {
-	rs := append([]c03Route(nil), routes...)
+// c03Commands is the command history that leaves `routes` in the table: every route (also the
+// dead ones) is added, in an order chosen by `order`, then every dead route is deleted again
+// with one of the three forms of `route del`.
+func c03Commands(routes, dead []c03Route, order int) []RouteDef {
+	rs := append(append([]c03Route(nil), routes...), dead...)
 	// the table must not depend on the order of the commands: rotate / reverse by `order`
 	if n := len(rs); n > 1 {
 		k := order % n
@@ -96,11 +102,52 @@ func c03TableText(routes []c03Route, order int) string {
 			}
 		}
 	}
-	var b strings.Builder
+	var defs []RouteDef
+	dst := func(r c03Route) string { return fmt.Sprintf("http://127.0.0.1:%d/", 10000+r.ID) }
 	for _, r := range rs {
-		fmt.Fprintf(&b, "route add r%d %s%s http://127.0.0.1:%d/\n", r.ID, r.Host, r.Path, 10000+r.ID)
+		defs = append(defs, RouteDef{Cmd: RouteAddCmd, Service: fmt.Sprintf("r%d", r.ID), Src: r.Host + r.Path, Dst: dst(r)})
+	}
+	for _, r := range dead {
+		d := RouteDef{Cmd: RouteDelCmd, Service: fmt.Sprintf("r%d", r.ID)}
+		switch (r.ID + order) % 3 {
+		case 1:
+			d.Src = r.Host + r.Path
+		case 2:
+			d.Src, d.Dst = r.Host+r.Path, dst(r)
+		}
+		defs = append(defs, d)
+	}
+	return defs
+}
+
+func c03TableText(routes, dead []c03Route, order int) string {
+	var b strings.Builder
+	for _, d := range c03Commands(routes, dead, order) {
+		switch d.Cmd {
+		case RouteAddCmd:
+			fmt.Fprintf(&b, "route add %s %s %s\n", d.Service, d.Src, d.Dst)
+		case RouteDelCmd:
+			b.WriteString(strings.TrimRight(fmt.Sprintf("route del %s %s %s", d.Service, d.Src, d.Dst), " ") + "\n")
+		}
 	}
 	return b.String()
+}
+
+// c03Build builds the table through the text parser (NewTable) or from the command list of the
+// custom back end (NewTableCustom).
+func c03Build(routes, dead []c03Route, order int, builder string) (tbl Table, err error) {
+	p, stack := verifx.Safely(func() {
+		if builder == "custom" {
+			defs := c03Commands(routes, dead, order)
+			tbl, err = NewTableCustom(&defs)
+		} else {
+			tbl, err = newTableFromText(c03TableText(routes, dead, order))
+		}
+	})
+	if p != nil {
+		return nil, fmt.Errorf("panic: %v\n%s", p, stack)
+	}
+	return tbl, err
 }
 
 func c03ID(t *Target) int {
@@ -171,6 +218,8 @@ func c03Features(x *c03Explicit, got int) map[string]any {
 	if w := c03FindRoute(x.Routes, x.Want); w != nil {
 		f["want_pattern"] = c03PatternClass(w.Host)
 	}
+	f["builder"] = map[bool]string{true: "custom", false: "text"}[x.Builder == "custom"]
+	f["deleted_routes"] = len(x.Dead)
 	switch {
 	case x.Want > 0 && got == 0:
 		f["clause"] = "no-route"
@@ -241,6 +290,12 @@ func c03Describe(x *c03Explicit, got int) string {
 	for _, r := range x.Routes {
 		rs = append(rs, fmt.Sprintf("r%d=%s%s", r.ID, r.Host, r.Path))
 	}
+	for _, r := range x.Dead {
+		rs = append(rs, fmt.Sprintf("(added and deleted again: r%d=%s%s)", r.ID, r.Host, r.Path))
+	}
+	if x.Builder == "custom" {
+		rs = append(rs, "built by NewTableCustom")
+	}
 	name := func(id int) string {
 		if id == 0 {
 			return "no route"
@@ -258,13 +313,13 @@ func c03Describe(x *c03Explicit, got int) string {
 }
 
 type c03Stats struct {
-	lines, lookups, sni, illposed, nontrivial, routed, unrouted int64
+	lines, lookups, sni, illposed, nontrivial, routed, unrouted, histories int64
 }
 
 func c03RunExplicit(e *c03Env, x *c03Explicit, st *c03Stats) {
-	tbl, err := newTableFromText(c03TableText(x.Routes, x.Order))
+	tbl, err := c03Build(x.Routes, x.Dead, x.Order, x.Builder)
 	if err != nil {
-		verifx.Fail(map[string]any{"x": x}, map[string]any{"kind": x.Kind, "clause": "table-rejected"}, "well-formed table rejected: %v\n%s", err, c03TableText(x.Routes, x.Order))
+		verifx.Fail(map[string]any{"x": x}, map[string]any{"kind": x.Kind, "clause": "table-rejected"}, "well-formed table rejected: %v\n%s", err, c03TableText(x.Routes, x.Dead, x.Order))
 		return
 	}
 	c03Check(e, tbl, x, st)
@@ -308,34 +363,54 @@ func c03RunLine(e *c03Env, u *c03Universe, l *c03Line, n int64, seed int64, st *
 	if l.H < 1 || l.H > len(u.Hosts) || len(l.W) != len(u.RPaths) {
 		return fmt.Errorf("malformed case line")
 	}
+	var dead []c03Route
+	for _, id := range l.D {
+		pi, qi := (id-1)/u.NPath, (id-1)%u.NPath
+		if id < 1 || pi >= len(u.Pats) || qi >= len(u.Paths) {
+			return fmt.Errorf("route index %d outside the universe", id)
+		}
+		dead = append(dead, c03Route{ID: id, Host: u.Pats[pi].String(), Path: strings.Join(u.Paths[qi], "")})
+	}
 	host := u.Hosts[l.H-1].String()
 	order := int((n + seed) % 6)
 	cacheSizes := []int{1000, 1, 2, 3}
 	cache := cacheSizes[int((n/7+seed)%int64(len(cacheSizes)))]
-	tbl, err := newTableFromText(c03TableText(routes, order))
-	if err != nil {
-		verifx.Fail(map[string]any{"line": l}, map[string]any{"kind": "lookup", "clause": "table-rejected"}, "well-formed table rejected: %v\n%s", err, c03TableText(routes, order))
-		return nil
+	// a table with a history (deleted routes) is built both ways; plain tables alternate
+	builders := []string{"text"}
+	if len(dead) > 0 {
+		builders = []string{"text", "custom"}
+	} else if (n+seed)%5 == 0 {
+		builders = []string{"custom"}
 	}
 	outcomes := map[int]bool{}
-	for q, row := range l.W {
-		if len(row) != len(u.Combos) {
-			return fmt.Errorf("malformed result row")
+	for _, builder := range builders {
+		tbl, err := c03Build(routes, dead, order, builder)
+		if err != nil {
+			verifx.Fail(map[string]any{"line": l}, map[string]any{"kind": "lookup", "clause": "table-rejected", "builder": builder}, "well-formed table rejected: %v\n%s", err, c03TableText(routes, dead, order))
+			return nil
 		}
-		for k, want := range row {
-			if want < 0 {
-				atomic.AddInt64(&st.illposed, 1)
-				continue
+		for q, row := range l.W {
+			if len(row) != len(u.Combos) {
+				return fmt.Errorf("malformed result row")
 			}
-			outcomes[want] = true
-			x := &c03Explicit{Kind: "lookup", Routes: routes, Host: host, TLS: l.TLS == 1, Path: strings.Join(u.RPaths[q], ""),
-				Matcher: u.Combos[k].M, Glob: u.Combos[k].G == 1, Want: want, Cache: cache, Order: order}
+			for k, want := range row {
+				if want < 0 {
+					atomic.AddInt64(&st.illposed, 1)
+					continue
+				}
+				outcomes[want] = true
+				x := &c03Explicit{Kind: "lookup", Routes: routes, Dead: dead, Builder: builder, Host: host, TLS: l.TLS == 1, Path: strings.Join(u.RPaths[q], ""),
+					Matcher: u.Combos[k].M, Glob: u.Combos[k].G == 1, Want: want, Cache: cache, Order: order}
+				c03Check(e, tbl, x, st)
+			}
+		}
+		if l.Sni > 0 {
+			x := &c03Explicit{Kind: "sni", Routes: routes, Dead: dead, Builder: builder, Host: host, Want: l.Sni, Order: order}
 			c03Check(e, tbl, x, st)
 		}
 	}
-	if l.Sni > 0 {
-		x := &c03Explicit{Kind: "sni", Routes: routes, Host: host, Want: l.Sni, Order: order}
-		c03Check(e, tbl, x, st)
+	if len(dead) > 0 {
+		atomic.AddInt64(&st.histories, 1)
 	}
 	if len(routes) >= 2 && len(outcomes) >= 2 {
 		atomic.AddInt64(&st.nontrivial, 1)
@@ -440,5 +515,5 @@ func TestVerifC03(t *testing.T) {
 	}
 	sort.Strings(samples)
 	verifx.Summary(map[string]any{"lines": n, "lookups": st.lookups, "sni": st.sni, "illposed": st.illposed,
-		"distinct_nontrivial": st.nontrivial, "routed": st.routed, "unrouted": st.unrouted, "samples": samples})
+		"distinct_nontrivial": st.nontrivial, "routed": st.routed, "unrouted": st.unrouted, "histories": st.histories, "samples": samples})
 }
